@@ -101,3 +101,35 @@ Example run_case_alias :
   let c := Case [2; 3] FromVec [10; 11; 12; 13; 14; 15]%Z true [OGet [0; 3] (Some 13%Z)] in
   model_check c = false /\ spec_check c = false.
 Proof. split; reflexivity. Qed.
+
+(** [c19_checked_volume]: its three premises, and the checked constructors on the repaired witnesses (the element
+    count of [2^63+1, 2] wraps to 2, that of [2^32, 2^32] to 0) *)
+Example ex_checked_hyp : 0 < 2 ^ 64 - 1 /\ N.of_nat (length [7; 8]%Z) <= 2 ^ 64 - 1 /\ product [2; 3] <= 2 ^ 64 - 1 /\
+                         2 ^ 64 - 1 < product [2 ^ 63 + 1; 2].
+Proof. cbn. lia. Qed.
+Example run_checked : from_vec_chk usize_max [2 ^ 63 + 1; 2] [7; 8]%Z = None /\
+                      from_slice_chk usize_max [2 ^ 32; 2 ^ 32] ([] : list Z) = None /\
+                      new_chk usize_max [2 ^ 32; 2 ^ 32] 0%Z = None /\
+                      read_chk usize_max [2 ^ 63 + 1; 2] [E 7; Sp; E 8]%Z = None /\
+                      from_vec_chk usize_max [2; 3] (data t23) = Some t23 /\
+                      new_chk usize_max [2; 2] 5%Z = Some (mk [2; 2] [5; 5; 5; 5]%Z) /\
+                      volume usize_max [2 ^ 32; 2 ^ 31; 2] = None /\ volume usize_max [2 ^ 32; 2 ^ 31] = Some (2 ^ 63).
+Proof. repeat split. Qed.
+Example run_case_overflow :
+  let c := Case [2 ^ 63 + 1; 2] FromVec [7; 8]%Z false [] in
+  let d := Case [2 ^ 63 + 1; 2] FromVec [7; 8]%Z true [OIter [7; 8]%Z] in
+  let n := Case [2 ^ 32; 2 ^ 32] (New 0%Z) [] false [] in
+  model_check c = true /\ spec_check c = true /\ model_check d = false /\ spec_check d = false /\
+  model_check n = true /\ spec_check n = true.
+Proof. repeat split. Qed.
+(** [c19_iter_mut] *)
+Example run_iter_mut : iter (iter_mut_assign t23 [1; 2; 3; 4; 5; 6]%Z) = [1; 2; 3; 4; 5; 6]%Z /\
+                       iter (iter_mut_assign t23 [1; 2]%Z) = [1; 2; 12; 13; 14; 15]%Z /\
+                       iter (iter_mut_assign t23 [1; 2; 3; 4; 5; 6; 7]%Z) = [1; 2; 3; 4; 5; 6]%Z /\
+                       length [1; 2; 3; 4; 5; 6]%Z = length (iter t23).
+Proof. repeat split. Qed.
+Example run_case_iter_mut :
+  let c := Case [2; 3] FromSlice [10; 11; 12; 13; 14; 15]%Z true
+             [OIterMut [1; 2; 3; 4]%Z 6; OIter [1; 2; 3; 4; 14; 15]%Z; OGet [1; 0] (Some 4%Z)] in
+  model_check c = true /\ spec_check c = true.
+Proof. split; reflexivity. Qed.
